@@ -246,7 +246,7 @@ def run(rng, n, names=None, prebuilt=None):
         if k % 4 == 3 and all(x in fs for x in NT_FUNCS) and (names_given is None or any(x in names_given for x in NT_FUNCS)):
             ln, (name, strs, flag, opt, num) = gen_nt(rng)
         else:
-            ln, (name, strs, flag, opt) = gen_function(rng, names)
+            ln, (name, strs, flag, opt) = gen_function(rng, [x for x in names if x in ARITY])
         try:
             r = fs[name](strs, flag, opt) if num is None else fs[name](strs, flag, opt, num)
             e = ('str', r)
